@@ -378,6 +378,7 @@ type FuncContract struct {
 	Asserts       []*Clause
 	OnCall        map[string][]*Clause // per function-valued parameter: obligation at each call (args: arg0, arg1, ...)
 	InlineCallees map[string]bool
+	UseAll        []string // lemmas assumed in universally quantified form
 }
 
 type ContractSet struct {
@@ -397,7 +398,7 @@ var clauseKeywords = map[string]bool{
 	"property": true, "model": true, "requires": true, "ensures": true, "loop": true,
 	"inline": true, "trusted": true, "safety": true, "pure": true, "assigns": true,
 	"let": true, "note": true, "method": true, "body": true, "use": true, "opt": true,
-	"assert": true, "purearg": true, "oncall": true, "inlinecall": true,
+	"assert": true, "purearg": true, "oncall": true, "inlinecall": true, "useall": true,
 }
 
 // ParseContractFile reads one verif_contracts.go file.
@@ -711,6 +712,8 @@ func (cs *ContractSet) addClause(c *FuncContract, kw, text, file string, line in
 		for _, f := range strings.Fields(text) {
 			c.InlineCallees[normalizeFuncName(f)] = true
 		}
+	case "useall":
+		c.UseAll = append(c.UseAll, strings.Fields(text)...)
 	case "inline":
 		c.Inline = true
 	case "trusted":
